@@ -1044,8 +1044,12 @@ inline bool Transport::setReadMode(SessionId sid, ReadMode mode)
       oldMode = it->second;
     }
 
-    // If NOT switching from Sync to Async, update mode directly
-    if (!(oldMode == ReadMode::Sync && mode == ReadMode::Async))
+    // If NOT switching to Async from a mode that may have left bytes in the sync
+    // buffer, update mode directly. Disabled->Async takes the flush path too: a
+    // Sync->Disabled switch keeps the buffered bytes, and entering Async without
+    // flushing them would hand later-arriving bytes to the callback first (the
+    // stale bytes would surface out of order in a later Sync read).
+    if (!(oldMode != ReadMode::Async && mode == ReadMode::Async))
     {
       _impl->readModes[sid] = mode;
 
@@ -1061,9 +1065,10 @@ inline bool Transport::setReadMode(SessionId sid, ReadMode mode)
     }
   } // syncMutex released
 
-  // Step 2: Sync→Async transition with ordered flush.
-  // Keep mode as Sync during flush so the I/O thread continues buffering
-  // any data that arrives mid-flush. Drain in a loop until empty.
+  // Step 2: Sync→Async (or Disabled→Async) transition with ordered flush.
+  // Keep the old mode during flush so the I/O thread continues buffering
+  // (Sync) or dropping (Disabled) any data that arrives mid-flush. Drain in a
+  // loop until empty.
   DataCallback cb;
   {
     std::lock_guard<std::mutex> cbLk(_impl->callbackMutex);
